@@ -12,7 +12,7 @@ demo = (dst / 'demo.py').read_text().replace(str(w), '<WORKTREE>')
 (dst / 'demo.py').write_text(demo)
 meta = {'property': pid, 'tag': tag, 'breaks': pid, 'needs_to_manifest': needs,
         'confirmed': {'demo_with_change_exit': 1, 'demo_without_change_exit': 0,
-                      'how': 'tools/seedcheck.sh <worktree> <ID>: demo.py run with the patch applied and with it stashed; then ./vcheck <ID> quick with VERIF_REPO=<worktree>'},
+                      'pinned_suite': 'tools/seedtests.sh <worktree>: 479/479 stable-pass tests pass with the change applied', 'how': 'tools/seedcheck.sh <worktree> <ID>: demo.py run with the patch applied and with it stashed; then ./vcheck <ID> quick with VERIF_REPO=<worktree>'},
         'result': result,
         'files_touched': subprocess.run(['git', '-C', str(w), 'diff', '--stat', '--', 'src'], capture_output=True, text=True).stdout.strip().splitlines()[:-1]}
 (dst / 'meta.json').write_text(json.dumps(meta, indent=1))
